@@ -72,7 +72,7 @@ Proof. unfold erun. cbn [with_m e_acts e_disk e_fault]. tauto. Qed.
 (* one successful action *)
 Lemma io_nofault a e : e_fault e = None -> io a e = (true, io_ok e a).
 Proof.
-  intros Hf. unfold io, io_ok. rewrite Hf. destruct (is_delete a); reflexivity.
+  intros Hf. unfold io, io_ok, armed. rewrite Hf. destruct (is_delete a); reflexivity.
 Qed.
 
 Lemma erun_io c bd e a ba :
